@@ -386,18 +386,18 @@ example : PagesOk false
 
 /-- whatever the page statistics and keys, the plan of `refineSegment` cuts every row group into
     consecutive parts from its first to its last row, at most one part per region -/
-theorem refineSegment_partitions_row_groups (specs : List ColSpec) (ts : List Refine.RG) (plan : List (List Part))
-    (h : refineSegment specs ts = some plan) :
+theorem refineSegment_partitions_row_groups (strict : Bool) (specs : List ColSpec) (ts : List Refine.RG) (plan : List (List Part))
+    (h : refineSegment strict specs ts = some plan) :
     (∀ i, i < ts.length → Refine.walk i 0 plan.flatten = some (numRowsOf ts i)) ∧
     (∀ R ∈ plan, (R.map (·.index)).Nodup ∧ ∀ p ∈ R, p.index < ts.length) :=
-  refineSegment_partition specs ts plan h
+  refineSegment_partition strict specs ts plan h
 
 /-- read region after region, the slices give back every row group whole and in order -/
-theorem cuts_reassemble_row_groups {α : Type} (specs : List ColSpec) (ts : List Refine.RG) (plan : List (List Part))
-    (h : refineSegment specs ts = some plan) (rows : List (List α)) (hlen : rows.length = ts.length)
+theorem cuts_reassemble_row_groups {α : Type} (strict : Bool) (specs : List ColSpec) (ts : List Refine.RG) (plan : List (List Part))
+    (h : refineSegment strict specs ts = some plan) (rows : List (List α)) (hlen : rows.length = ts.length)
     (hrows : ∀ i, i < ts.length → (rows.getD i []).length = numRowsOf ts i) :
     joinSegmentsG ts.length (plan.map (slicesOf rows ts.length)) = rows :=
-  cuts_partition_rows specs ts plan h rows hlen hrows
+  cuts_partition_rows strict specs ts plan h rows hlen hrows
 
 /-- `cuts_form_good_plan_partial`: with the partition and the conservative cuts proved, a refined plan
     whose regions are key-ordered and individually merged is a merge of the whole row groups.
@@ -405,22 +405,39 @@ theorem cuts_reassemble_row_groups {α : Type} (specs : List ColSpec) (ts : List
     -- hypothesis) from the event sweep of `refineSegment` and `PagesOk`; the sweep invariant tying
     -- `pendingLeftK` / `active` / cursors to the keys of the rows not yet planned is not proved; it is
     -- covered by the L1 oracle and the plan L2 on compound-key multi-page files only. -/
-theorem cuts_form_good_plan_partial {α : Type} (specs : List ColSpec) (ts : List Refine.RG) (plan : List (List Part))
-    (h : refineSegment specs ts = some plan) (rows : List (List α)) (hlen : rows.length = ts.length)
+theorem cuts_form_good_plan_partial {α : Type} (strict : Bool) (specs : List ColSpec) (ts : List Refine.RG) (plan : List (List Part))
+    (h : refineSegment strict specs ts = some plan) (rows : List (List α)) (hlen : rows.length = ts.length)
     (hrows : ∀ i, i < ts.length → (rows.getD i []).length = numRowsOf ts i)
     (le : α → α → Prop) (tag : α → Nat) (outs : List (List α))
     (hgood : PlanGoodBy le tag ts.length (plan.map (slicesOf rows ts.length)) outs) :
     IsMergeBy le tag rows outs.flatten :=
-  Refine.cuts_form_good_plan_partial specs ts plan h rows hlen hrows le tag outs hgood
+  Refine.cuts_form_good_plan_partial strict specs ts plan h rows hlen hrows le tag outs hgood
 
 /-- the hypothesis `refineSegment … = some plan` is satisfiable: two row groups of 3000 rows in 3 pages
     each, overlapping in the middle page: the plan is slice / merged region / slice -/
-example : refineSegment [⟨false, false⟩]
+example : refineSegment false [⟨false, false⟩]
     [{ t := { idx := 0, numRows := 3000, cols := [[⟨false, false, some 0, some 9⟩, ⟨false, false, some 10, some 19⟩, ⟨false, false, some 20, some 29⟩]],
               firstRows := [0, 1200, 1800] }, lo := [some 0], hi := [some 29] },
      { t := { idx := 1, numRows := 3000, cols := [[⟨false, false, some 20, some 29⟩, ⟨false, false, some 30, some 39⟩, ⟨false, false, some 40, some 49⟩]],
               firstRows := [0, 600, 1800] }, lo := [some 20], hi := [some 49] }]
     = some [[⟨0, 0, 1800⟩], [⟨0, 1800, 1200⟩, ⟨1, 0, 600⟩], [⟨1, 600, 2400⟩]] := by decide
+
+/-- FINDING (cut lookups ignore nulls in mixed pages): on the mirror of the code as it is
+    (`strict = false`) a row group `B` = 1774 rows, keys 43..1778 followed by 38 nulls (nulls last;
+    the last page holds values *and* nulls, so it is not a "null page") and a row group `A` = keys from
+    3544: the ranges overlap (`B`'s upper bound is null), but `cutBelow(3544)` only sees the non-null
+    bound 1778 of `B`'s last page and slices all of `B`, nulls included, in front of `A`, although
+    `B`'s last row sorts after `A`'s first. With pages holding nulls refused (`strict = true`, the
+    proposed fix) the two row groups go through the merge reader. Harness key
+    `nullable-key-cuts-ignore-nulls`. -/
+theorem cut_lookups_ignore_nulls_in_mixed_pages :
+    let B : Refine.RG := { t := { idx := 0, numRows := 1774, cols := [[⟨false, false, some 43, some 1000⟩, ⟨false, true, some 1001, some 1778⟩]],
+                                   firstRows := [0, 900] }, lo := [some 43], hi := [none] }
+    let A : Refine.RG := { t := { idx := 1, numRows := 2281, cols := [[⟨false, true, some 3544, some 5780⟩]], firstRows := [0] },
+                           lo := [some 3544], hi := [none] }
+    refineSegment false [⟨false, false⟩] [B, A] = some [[⟨0, 0, 1774⟩], [⟨1, 0, 2281⟩]] ∧
+    cmpRows [⟨false, false⟩] B.hi A.lo > 0 ∧
+    refineSegment true [⟨false, false⟩] [B, A] = none := by decide
 
 end planner
 
